@@ -138,6 +138,11 @@ def handle (model : String) : List String → String
       else if failed ≠ 0 then "SPEC key=request-failed-during-faults"
       else s!"OK tags=conc,{if inj = 0 then "nofaults" else if inj > 20 then "manyfaults" else "faults"}"
     | _, _, _, _, _, _, _, _ => "BAD conc fields"
+  | ["script", name, results, unavail] =>
+    let rs := results.splitOn ","
+    if rs.any (· ≠ "ok") then s!"SPEC key=request-blocked-after-stabilisation-{name} results={results}"
+    else if unavail ≠ "unavailable=0" then s!"SPEC key=region-left-unavailable-{name} {unavail}"
+    else s!"OK tags=script,{name}"
   | ["wait", state, api, mode, lat, res] =>
     match lat.toNat? with
     | none => "BAD latency"
